@@ -605,6 +605,7 @@ fn build_meta(name: &str, origin: &str, text: &str, acc: &Accepted, probes: bool
         total_domain: model.all_productive() && model.consumes_on_every_cycle(),
         has_choice: model.has_choice(),
         has_probes: probes && model.has_choice(),
+        shape_tags: if model.undoable_creation_at_outer_mark() { vec!["undo_of_node_creation_at_outer_mark".to_string()] } else { vec![] },
     })
 }
 
